@@ -280,6 +280,28 @@ fn positional() -> Vec<Vec<u8>> {
             v.push(f.into_bytes());
         }
     }
+    // the 50-item window measured in BYTES: few but long items in front of / inside the first class+member pair
+    // (an implementation that looks at a byte prefix instead of the first 50 items answers differently)
+    for width in [100usize, 300, 1000, 5000, 70000] {
+        for k in [1usize, 10, 30, 48, 49, 50] {
+            let mut f = String::new();
+            for _ in 0..k {
+                f.push_str("# ");
+                for _ in 0..width {
+                    f.push('h');
+                }
+                f.push('\n');
+            }
+            f.push_str("p.A -> a:\n    void m() -> x\n");
+            v.push(f.into_bytes());
+        }
+        // a class line followed by ONE long member line (valid), and by one long line that is an error as a whole
+        let long_args: String = std::iter::repeat("int,").take(width / 4).collect::<String>() + "int";
+        v.push(format!("p.A -> a:\n    void m({}) -> x\n", long_args).into_bytes());
+        let mut bad = format!("p.A -> a:\n    void m({}", long_args).into_bytes();
+        bad.extend_from_slice(b"\xff) -> x\n    void late() -> y\n");
+        v.push(bad);
+    }
     v
 }
 
@@ -357,7 +379,7 @@ pub fn run(tier: Tier) -> i32 {
         prop: "C19",
         tier,
         level: "model_checking",
-        rule: format!("every file of <= {} lines over the 15-line alphabet (indented R8 comment, class, field, method with / without usable range, 0:0 method, compiler / compiler_version / min_api headers incl. valueless, non-numeric and 2^32, garbage, blank), each also without its final newline (thorough: also with CRLF); the same files with all lines joined without any terminator (one line less) and with only the first two lines joined (records sharing a physical line); positional families ({} files): k = 0..=52 leading noise / header / class / blank / field lines before the first class+member pair, a class line followed by k lines and then the first member, the first line-mapped method after n in {{0,1,49,50,51,1000,20000}} unmapped ones with error / blank lines interspersed, with and without final newline, headers after everything; a single line-mapped method placed so that it straddles a multiple of 4096 / 65536 / 2^20 at every cut position. the 50-item window behind a class line filled with 44..54 items of which 0..3 are indented R8 comment lines; the metadata of every section(i..j) of three small files, with and without asking the parent first. Oracle: independent fold over the items of iter(). distinct = distinct metadata tuples", depth, npos),
+        rule: format!("every file of <= {} lines over the 15-line alphabet (indented R8 comment, class, field, method with / without usable range, 0:0 method, compiler / compiler_version / min_api headers incl. valueless, non-numeric and 2^32, garbage, blank), each also without its final newline (thorough: also with CRLF); the same files with all lines joined without any terminator (one line less) and with only the first two lines joined (records sharing a physical line); positional families ({} files): k = 0..=52 leading noise / header / class / blank / field lines before the first class+member pair, a class line followed by k lines and then the first member, the first line-mapped method after n in {{0,1,49,50,51,1000,20000}} unmapped ones with error / blank lines interspersed, with and without final newline, headers after everything; a single line-mapped method placed so that it straddles a multiple of 4096 / 65536 / 2^20 at every cut position. few long items (headers of 100..70000 bytes, k = 1..50 of them; one member line with 100..70000 bytes of arguments, valid and invalid as a whole) in front of / inside the first class+member pair; the 50-item window behind a class line filled with 44..54 items of which 0..3 are indented R8 comment lines; the metadata of every section(i..j) of three small files, with and without asking the parent first. Oracle: independent fold over the items of iter(). distinct = distinct metadata tuples", depth, npos),
         bounds: json!({"depth": depth, "alphabet": LINES, "positional_files": npos}),
         assumptions: vec!["the statement defines the answers as functions of the record stream; the stream itself is the subject of C05/C06".into()],
         trusted_base: vec!["rustc/std".into(), "the fold in pgmc/src/props/c19.rs".into()],
